@@ -90,7 +90,12 @@ def _metric(r, n, name, kind):
     if np_ == 1:
         names = [r.choice(names)]
     for p in names[:np_]:
-        params.append([p, [r.randint(1, 4) for _ in range(n)]])
+        if p == "extra" and r.chance(1, 3):
+            # values a float64 cannot hold exactly (ids, nanosecond time stamps): the metric must receive the
+            # caller's values, not a float image of them
+            params.append([p, [2 ** 53 + r.randint(1, 9) for _ in range(n)]])
+        else:
+            params.append([p, [r.randint(1, 4) for _ in range(n)]])
     if r.chance(1, 2):
         params.reverse()
     return {"name": name, "kind": kind, "params": params}
